@@ -424,6 +424,28 @@ def part_d(tier):
                               'note': '%s: %s (shadowed demoted: %s)' % (b, ann, bad_first)})
             com = ENV_COMMENTS + [blk(b, ident='(rename-to %s)' % a), blk(a, ident='(rename-to %s)' % b)]
             cases.append({'part': 'D', 'decls': d, 'comments': com, 'dump': None, 'note': 'mutual rename-to'})
+    # rename-to graphs: k functions (namespace functions, or methods of one record), each either without
+    # (rename-to) or renaming to one of the others: every assignment for k=3 under every declaration order,
+    # every assignment for k=4 in one order (fan-in of 2 and 3, chains, 2- and 3-cycles, mixtures);
+    # shadow-pair violations of these cases are keyed by the graph's shape (see rename_shape)
+    for k in (3, 4):
+        choices = [[None] + [j for j in range(k) if j != i] for i in range(k)]
+        orders = list(itertools.permutations(range(k))) if k == 3 else [tuple(range(k))]
+        for assign in itertools.product(*choices):
+            if all(a is None for a in assign):
+                continue
+            shape = rename_shape(assign)
+            for method in (False, True):
+                names = [('foo_obj_r%d' if method else 'foo_r%d') % i for i in range(k)]
+                for order in orders:
+                    d = ENV + [fn(names[i], 'void', ([('FooObj*', 'self')] if method else []) + [('int', 'a%d' % x) for x in range(i + 1)])
+                               for i in order]
+                    com = ENV_COMMENTS + [blk(names[i], ident='(rename-to %s)' % names[assign[i]])
+                                          for i in order if assign[i] is not None]
+                    cases.append({'part': 'D', 'decls': d, 'comments': com, 'dump': None, 'shape': shape,
+                                  'note': 'rename-to graph %s over %s, declared %s (%s)' % (
+                                      ' '.join('%d->%s' % (i, assign[i]) for i in range(k) if assign[i] is not None),
+                                      'methods' if method else 'functions', ''.join(map(str, order)), shape)})
     # (virtual SLOT) on a method (documented use), and on a static function / constructor (documented
     # for methods only: a misplaced annotation, outcome UNSPECIFIED for the invoker rule)
     for spec, nm, misuse in ((fn('foo_thing_other', 'void', [('FooThing*', 'self'), ('int', 'x')]), 'foo_thing_other', None),
@@ -470,6 +492,18 @@ def part_d(tier):
                                                signals=[('sig', 'void', ['gint', pt]), ('sig2', pt, [])]),
                               'note': 'property p of GType %s flags %d, accessors %s' % (pt, flags, acc)})
     return cases
+
+
+def rename_shape(assign):
+    """'chain' if some function both renames and is renamed-to (chains and cycles: the writer can state
+    only one of shadows / shadowed-by per function), else 'fanin' if two or more functions rename to the
+    same target, else 'simple'"""
+    targets = set(j for j in assign if j is not None)
+    if any(assign[j] is not None for j in targets):
+        return 'chain'
+    if len(targets) < sum(1 for j in assign if j is not None):
+        return 'fanin'
+    return 'simple'
 
 
 PARTS = {'A': part_a, 'B': part_b, 'C': part_c, 'D': part_d}
@@ -575,6 +609,8 @@ def _work(chunk):
                 part.add(unspecified=1)
                 continue
             key = 'gen:%s:%s' % (case['part'], classify(fd, root))
+            if fd[0] == 'shadow-pair' and case.get('shape'):
+                key = 'gen:%s:shadow-pair:%s' % (case['part'], case['shape'])
             _keep(best, key, '%s at %s: %s [%s]' % (fd[0], fd[1], fd[2], case['note']), case)
         if len(part.samples) < 2 and dead:
             part.sample({'part': case['part'], 'note': case['note'], 'c': case_text(case),
